@@ -80,7 +80,7 @@ time_module.localtime = _time.localtime
 
 def urandom(n):
     e = core.Engine.cur
-    if e is None:
+    if e is None or getattr(e, 'replay', False):
         return _os.urandom(n)
     if bool(n < 0):
         raise ValueError('negative argument not allowed')
